@@ -21,7 +21,10 @@ RULE = ("event streams of 0-6 blocks: optional id (also empty, with NUL), event 
         "Histories: one Respondent over 1-4 consecutive event-stream responses (chunked or close-delimited, complete "
         "or dropped mid-stream / mid-chunk), started with a remembered Last-Event-ID / retry or none, resumed streams "
         "beginning with id-less chunks (comments, data-only events, retry, NUL ids), (.leid, .retry) observed after "
-        "every read and compared with the last id/retry field seen so far on any connection.  "
+        "every read and compared with the last id/retry field seen so far on any connection.  Delivery: the caller "
+        "passes its own containers (events deque empty or preloaded; requests, responses, redirects, msg) to the real "
+        "Client (over a scripted socket), to Respondent and to EventSource; the objects must be used as given "
+        "(identity) and the stream's events must arrive in the caller's deque behind what it already held.  "
         "Non-trivial: >= 2 events, >= 2 terminator kinds and >= 1 cut between the CR and LF of a CRLF")
 MODELLED = ["UTF-8 decoding (events are compared as UTF-8 bytes; generated streams are valid UTF-8)",
             "int() of an ASCII digit string up to 4300 digits (as decimal value)",
@@ -153,6 +156,101 @@ def run_history(init, conns):
     return out
 
 
+# ----------------------------------------------------------------------------- application-level delivery
+
+class _SseSock:
+    """socket of a scripted event-stream server: after the request head arrived it releases the response one
+    fragment per tick()"""
+    def __init__(self, frags):
+        self.frags, self.rx, self.ready, self.armed, self.closed = list(frags), bytearray(), bytearray(), False, False
+    def setsockopt(self, *a): pass
+    def getsockopt(self, *a): return 1 << 20
+    def setblocking(self, flag): pass
+    def connect_ex(self, ha): return 0
+    def getsockname(self): return ("127.0.0.1", 40001)
+    def getpeername(self): return ("127.0.0.1", 8000)
+    def shutdown(self, how): pass
+    def close(self): self.closed = True
+    def send(self, data):
+        self.rx += bytes(data)
+        if b"\r\n\r\n" in self.rx:
+            self.armed = True
+        return len(data)
+    def recv(self, n):
+        import errno
+        if self.ready:
+            d = bytes(self.ready[:n]); del self.ready[:n]
+            return d
+        raise BlockingIOError(errno.EAGAIN, "would block")
+    def tick(self):
+        if self.armed and self.frags:
+            self.ready += self.frags.pop(0)
+
+
+def run_deliver(case):
+    """The caller hands its own containers to the constructors (empty or preloaded) and must find the parsed events
+    in them.  level client: the real clienting.Client over a scripted socket; respondent / source: direct."""
+    from collections import deque
+    from hio.core import tcp
+    from hio.core.http import clienting, httping
+    from hio.base import tyming
+    reads = [unh(x) for x in case["reads"]]
+    pre = [{"id": None, "name": "preloaded", "data": str(i)} for i in range(case.get("preload", 0))]
+    mine = deque(pre)
+    head = HEAD_CHUNKED if case["body"] == "chunked" else HEAD_UNTIL
+    ident, err, es = {}, None, None
+    try:
+        if case["level"] == "source":
+            raw = bytearray()
+            es = httping.EventSource(raw=raw, events=mine)
+            ident = {"source.events": es.events is mine, "source.raw": es.raw is raw}
+            for r in reads:
+                raw.extend(r)
+                es.parse()
+        elif case["level"] == "respondent":
+            msg, reds = bytearray(), []
+            p = clienting.Respondent(msg=msg, method="GET", events=mine, redirects=reds)
+            ident = {"respondent.events": p.events is mine, "respondent.msg": p.msg is msg, "respondent.redirects": p.redirects is reds}
+            for r in [head] + reads:
+                msg.extend(r)
+                p.parse()
+            es = p.eventSource
+            ident["source.events"] = es.events is mine
+        else:
+            frags = [head] + reads
+            sock = _SseSock(frags)
+
+            class _Conn(tcp.Client):
+                def open(self_):
+                    self_.accepted = False; self_.connected = False; self_.cutoff = False
+                    self_.cs = sock; self_.opened = True
+                    return True
+
+            tymist = tyming.Tymist(tyme=0.0, tock=1.0)
+            conn = _Conn(tymth=tymist.tymen(), ha=("127.0.0.1", 8000))
+            requests, responses, reds = deque(), deque(), []
+            client = clienting.Client(connector=conn, events=mine, requests=requests, responses=responses, redirects=reds)
+            ident = {"client.events": client.events is mine, "client.requests": client.requests is requests,
+                     "client.responses": client.responses is responses, "client.redirects": client.redirects is reds,
+                     "respondent.events": client.respondent.events is mine,
+                     "respondent.msg": client.respondent.msg is conn.rxbs}
+            client.reopen()
+            client.request(method="GET", path="/stream")
+            for _ in range(len(frags) + 6):
+                sock.tick()
+                client.service()
+                tymist.tick()
+            es = client.respondent.eventSource
+            ident["source.events"] = es is not None and es.events is mine
+            ident["client.events_after"] = client.events is mine
+    except Exception as ex:  # noqa
+        err = exn_kind(ex)
+    got = list(mine)
+    return {"ident": ident, "preloaded_kept": got[:len(pre)] == pre, "events": _events(got[len(pre):]),
+            "leid": es.leid if es else None, "retry": es.retry if es else None, "err": err,
+            "left": h(es.raw) if es else "", "n_mine": len(got)}
+
+
 def run_mode(mode, reads):
     if mode == "plain":
         return run_plain(reads)
@@ -160,6 +258,8 @@ def run_mode(mode, reads):
 
 
 def run_impl(case):
+    if case["mode"] == "deliver":
+        return run_deliver(case)
     if case["mode"] == "history":
         return {"conns": run_history(case.get("init"), [dict(c, reads=[unh(x) for x in c["reads"]]) for c in case["conns"]])}
     return run_mode(case["mode"], [unh(x) for x in case["reads"]])
@@ -227,7 +327,27 @@ def oracle_history(case, obs):
     return None
 
 
+def oracle_deliver(case, obs):
+    if obs["err"] is not None:
+        return f"delivery through {case['level']} raised {obs['err']}"
+    bad = [k for k, v in obs["ident"].items() if not v]
+    if bad:
+        return (f"the caller's own container is not the one used ({', '.join(bad)} is a different object): with "
+                f"{case.get('preload', 0)} preloaded item(s) the caller finds {obs['n_mine']} item(s) in its deque")
+    if not obs["preloaded_kept"]:
+        return "items the caller had put into its deque were lost or reordered"
+    body = b"".join(unh(c) for c in case["chunks"]) if case["body"] == "chunked" else b"".join(unh(x) for x in case["reads"])
+    evs, lastid, retry = sse_ref(body)
+    if obs["events"] != evs:
+        return f"the caller's deque received {obs['events']}, the stream dispatches {evs}"
+    if (obs["leid"], obs["retry"]) != (lastid, retry):
+        return f"(leid, retry) = {(obs['leid'], obs['retry'])}, stream says {(lastid, retry)}"
+    return None
+
+
 def oracle(case, obs):
+    if case["mode"] == "deliver":
+        return oracle_deliver(case, obs)
     if case["mode"] == "history":
         return oracle_history(case, obs)
     reads = [unh(x) for x in case["reads"]]
@@ -363,6 +483,22 @@ def _gen_conn(rng, idless_first):
             "head_cuts": head_cuts, "idle": rng.choice([0, 0, 1, 2, 3])}
 
 
+def _gen_deliver(rng, level=None, preload=None):
+    body = _gen_stream(rng) or b"data: x\n\n"
+    level = level or rng.choice(["client", "client", "respondent", "source"])
+    kind = "plain" if level == "source" else rng.choice(["until", "chunked"])
+    case = {"mode": "deliver", "level": level, "body": kind, "preload": rng.choice([0, 0, 0, 1, 2]) if preload is None else preload}
+    if kind == "chunked":
+        pts = sorted(set(rng.randrange(1, len(body)) for _ in range(rng.choice([0, 1, 2, 4])))) if len(body) > 1 else []
+        chunks = K.cut(body, pts)
+        wire = b"".join(b"%x\r\n" % len(c) + c + b"\r\n" for c in chunks) + b"0\r\n\r\n"
+        case["chunks"] = [h(c) for c in chunks]
+    else:
+        wire = body
+    case["reads"] = [h(x) for x in K.cut(wire, K._rand_cuts(rng, wire))]
+    return case
+
+
 def _gen_history(rng):
     init = {"leid": rng.choice([None, None, "9", "last-\u00e9", ""]), "retry": rng.choice([None, None, 2500, 0])}
     conns = [_gen_conn(rng, idless_first=(k > 0 or init["leid"] is not None or rng.random() < 0.5))
@@ -424,6 +560,12 @@ def directed():
         hc["conns"][0]["idle"] = 3
         hc["conns"][1]["head_cuts"] = [17]
         out.append(hc)
+    # the caller's own containers (empty and preloaded) at every level (seeded C15-9)
+    import random as _random
+    drng = _random.Random(915)
+    for level in ("client", "respondent", "source"):
+        for preload in (0, 1, 2):
+            out.append(_gen_deliver(drng, level=level, preload=preload))
     # line-length limit
     long_ok = b"data: " + b"z" * 65530 + b"\r\n\r\n"
     long_bad = b"data: " + b"z" * 65531 + b"\r\n\r\n"
@@ -436,8 +578,9 @@ def directed():
 
 
 def generate(rng, tier):
-    n, nh = (600, 250) if tier == "quick" else (4500, 2000)
-    return [_gen_case(rng) for _ in range(n)] + [_gen_history(rng) for _ in range(nh)]
+    n, nh, nd = (600, 250, 150) if tier == "quick" else (4500, 2000, 1500)
+    return ([_gen_case(rng) for _ in range(n)] + [_gen_history(rng) for _ in range(nh)] +
+            [_gen_deliver(rng) for _ in range(nd)])
 
 
 # ----------------------------------------------------------------------------- Gallina
@@ -470,12 +613,16 @@ def coq_conn(mode, reads, o):
 
 
 def to_coq(case, obs):
+    if case["mode"] == "deliver":
+        return coq_list([coq_conn(case["body"], case["reads"], obs)], "Sse.conn")
     if case["mode"] == "history":
         return coq_list([coq_conn(c["mode"], c["reads"], o) for c, o in zip(case["conns"], obs["conns"])], "Sse.conn")
     return coq_list([coq_conn(case["mode"], case["reads"], obs)], "Sse.conn")
 
 
 def nontrivial(case, obs):
+    if case["mode"] == "deliver":
+        return len(obs.get("events", [])) >= 1 and case["level"] != "source"
     if case["mode"] == "history":
         # a resumed connection whose first completed read carries no id while an id is remembered
         for c, o in zip(case["conns"], obs.get("conns", [])):
@@ -505,6 +652,8 @@ def classify(case, obs, why):
 
 
 def shrink(case):
+    if case["mode"] == "deliver":
+        return
     if case["mode"] == "history":
         conns = case["conns"]
         for i in range(len(conns)):
@@ -527,6 +676,10 @@ def distribution(cases, obs):
     nconn = 0
     for c, o in zip(cases, obs):
         modes[c["mode"]] = modes.get(c["mode"], 0) + 1
+        if c["mode"] == "deliver":
+            modes["deliver:" + c["level"]] = modes.get("deliver:" + c["level"], 0) + 1
+            nev += len(o.get("events", [])) if isinstance(o, dict) else 0
+            continue
         if c["mode"] == "history":
             nconn += len(c["conns"])
             nev += sum(len(x["events"]) for x in o.get("conns", [])) if isinstance(o, dict) else 0
